@@ -7,8 +7,9 @@ from . import common
 def case_spec(seed, i):
     rnd = gen.rng_for('C17', seed, i)
     kw = dict(p_incompat=.2, n_metric=(1, 4), n_steps=(3, 9), n_dv=(0, 1))
-    if rnd.random() < .15:
-        kw.update(n_conn=(1, 1), n_steps=(2, 5), max_sel=2, max_opts=3, max_side=2)
+    if rnd.random() < .25:
+        kw.update(n_conn=(1, 1), n_steps=(2, 5), max_sel=2, max_opts=3, max_side=2, p_excl=.7, p_conn_cond=.7,
+                  p_metric_below_conn=.6)
     sp = gen.gen_spec(rnd, **kw)
     # make ambiguous undeclared metrics (error case) rarer: half of them get a declared role
     for n in sp['nodes']:
